@@ -193,6 +193,12 @@ class Facts:
                 self.impls.append(i)
             for t in d["traits"]:
                 self.traits.append(t)
+        # summaries of library combinators used by the path rules are written for this exact version
+        lock = os.path.join(os.environ.get("UCG_REPO", "/repo"), "Cargo.lock")
+        self.abortable_parser_version = None
+        if os.path.exists(lock):
+            m = re.search(r'name = "abortable_parser"\nversion = "([^"]+)"', open(lock).read())
+            self.abortable_parser_version = m.group(1) if m else None
         synp = os.path.join(facts_dir, "syn.json")
         self._syn = None
         self._synp = synp
